@@ -134,6 +134,27 @@ fn termid_ops(_it: &mut Interp, toks: &[&str], out: &mut Vec<String>) -> bool {
             out.push(HpoTermId::from([a, bb, c, d]).as_u32().to_string());
             true
         }
+        ["rtrange", lo, hi] => {
+            // a whole id range in one op: count of ids whose rendering parses back (and whose bytes
+            // round-trip) + FNV-1a digest of all renderings
+            let (Ok(lo), Ok(hi)) = (lo.parse::<u32>(), hi.parse::<u32>()) else { return false };
+            let mut h: u64 = 0xcbf2_9ce4_8422_2325;
+            let mut ok = 0u64;
+            for n in lo..hi {
+                let id = HpoTermId::from_u32(n);
+                let s = id.to_string();
+                for b in s.bytes() {
+                    h ^= u64::from(b);
+                    h = h.wrapping_mul(0x0000_0100_0000_01b3);
+                }
+                let back = HpoTermId::try_from(s.as_str()).ok().map(|x| x.as_u32());
+                if back == Some(n) && HpoTermId::from(id.to_be_bytes()).as_u32() == n && id.as_u32() == n {
+                    ok += 1;
+                }
+            }
+            out.push(format!("rt {ok} {h}"));
+            true
+        }
         ["roundtrip", n] => {
             let Ok(n) = n.parse::<u32>() else { return false };
             let id = HpoTermId::from_u32(n);
